@@ -17,3 +17,4 @@ import Verif.Properties.C04
 #print axioms C02.canonical_sound
 #print axioms C03.uniqify_fresh
 #print axioms C04.moved_pointers_leave_the_plan
+#print axioms C04.namePointers_ends_with_complete_pass
